@@ -3,6 +3,7 @@ package props
 import (
 	"fmt"
 	"go/token"
+	"go/types"
 	"sort"
 	"strings"
 
@@ -19,6 +20,7 @@ func init() {
 		Assumptions: []string{"the include predicate is a pure function of (id, value)"},
 		Run:         runC08,
 		Controls: []Control{
+			{Name: "booking-response-change-without-old-value", File: "pkg/trait/bookingpb/model_server.go", Old: "\t\t\t\tOldValue:   change.OldValue,\n", New: "", Expect: "R08.10"},
 			{Name: "revert-F59-predicate-asked-about-absent", File: "pkg/resource/change.go", Old: "\toldInclude := c.OldValue != nil && includeFunc(c.Id, c.OldValue)\n\tnewInclude := c.NewValue != nil && includeFunc(c.Id, c.NewValue)\n", New: "\toldInclude := includeFunc(c.Id, c.OldValue)\n\tnewInclude := includeFunc(c.Id, c.NewValue)\n", Expect: "R08.1"},
 			{Name: "absent-new-value-still-asked", File: "pkg/resource/change.go", Old: "\tnewInclude := c.NewValue != nil && includeFunc(c.Id, c.NewValue)\n", New: "\tnewInclude := includeFunc(c.Id, c.NewValue)\n", Expect: "R08.1"},
 			{Name: "booking-old-value-by-change-type", File: "pkg/trait/bookingpb/model.go", Old: "\t\t\tif change.OldValue != nil {\n\t\t\t\tevent.OldValue = change.OldValue.(*traits.Booking)", New: "\t\t\tif change.ChangeType == types.ChangeType_UPDATE {\n\t\t\t\tevent.OldValue = change.OldValue.(*traits.Booking)", Expect: "R08.9"},
@@ -120,6 +122,8 @@ func runC08(c *an.Ctx) {
 	c.Min("R08.7", 2)
 	r165held(c, "R08.8") // include-driven removals and re-adds under a configured equivalence (shared with R16.5)
 	c.Min("R08.8", 2)
+	r0810(c, "R08.10")
+	c.Min("R08.10", 5)
 	r089(c, "R08.9")
 	c.Min("R08.9", 6)
 }
@@ -712,4 +716,82 @@ func fieldLoadOf(v ssa.Value) (ssa.Value, string, bool) {
 	}
 	_, _, f, isF := an.FieldOf(fa)
 	return fa.X, f, isF
+}
+
+// r0810: a server's Pull handler hands on what the model announced, field for field. The response change built for
+// each element received from the model's channel sets every field that the model's change carries under the same
+// name (OldValue, NewValue, ChangeTime, …). A response that leaves one out - `OldValue` in a stream whose REMOVE
+// events exist only because an include filter synthesised them, and whose changes carry no id - names nothing: the
+// subscriber cannot fold the stream into the listing.
+func r0810(c *an.Ctx, rule string) {
+	n := 0
+	for _, fn := range c.Prog.FuncsIn("pkg/trait") {
+		if c.Prog.IsGenerated(fn.Pos()) || fn.Parent() != nil || strings.HasSuffix(c.Prog.RelFile(fn.Pos()), "_test.go") || !strings.HasSuffix(c.Prog.RelFile(fn.Pos()), "/model_server.go") {
+			continue
+		}
+		// the element type of the channel the handler ranges over
+		var src *types.Struct
+		srcName := ""
+		for _, rl := range an.RecvLoops(fn) {
+			t := rl.Recv.X.Type()
+			ch, ok := t.Underlying().(*types.Chan)
+			if !ok {
+				continue
+			}
+			et := ch.Elem()
+			if p, isP := et.(*types.Pointer); isP {
+				et = p.Elem()
+			}
+			if st, isSt := et.Underlying().(*types.Struct); isSt && strings.HasPrefix(an.NamedTypeName(et), an.ModulePath) {
+				src, srcName = st, an.NamedTypeName(et)
+			}
+		}
+		if src == nil {
+			continue
+		}
+		an.Instrs(fn, func(in ssa.Instruction) {
+			al, ok := in.(*ssa.Alloc)
+			if !ok || !al.Heap {
+				return
+			}
+			tt, isSt := al.Type().(*types.Pointer).Elem().Underlying().(*types.Struct)
+			if !isSt || !strings.HasSuffix(an.NamedTypeName(al.Type().(*types.Pointer).Elem()), "_Change") {
+				return
+			}
+			assigned := map[string]bool{}
+			for _, u := range an.Referrers(al) {
+				if fa, isFA := u.(*ssa.FieldAddr); isFA {
+					for _, u2 := range an.Referrers(fa) {
+						if st, isStore := u2.(*ssa.Store); isStore && st.Addr == fa {
+							assigned[tt.Field(fa.Field).Name()] = true
+						}
+					}
+				}
+			}
+			if len(assigned) == 0 {
+				return
+			}
+			n++
+			missing := ""
+			for i := 0; i < src.NumFields(); i++ {
+				f := src.Field(i)
+				if !f.Exported() {
+					continue
+				}
+				has := false
+				for j := 0; j < tt.NumFields(); j++ {
+					if tt.Field(j).Name() == f.Name() {
+						has = true
+					}
+				}
+				if has && !assigned[f.Name()] {
+					missing = f.Name()
+				}
+			}
+			c.SawFunc(an.FuncName(fn))
+			c.Check(missing == "", rule, an.FuncName(fn)+"|the response change carries every field the model's change has", al.Pos(), "same-named fields of "+an.ModRel(srcName)+" are all set",
+				"the response change leaves "+missing+" unset although the model's change carries it: subscribers receive changes that do not say what changed (a REMOVE without the value that left cannot be folded)")
+		})
+	}
+	c.Count("response_changes_built_from_model_changes", n)
 }
